@@ -427,7 +427,7 @@ pub fn run(ctx: Ctx) -> Report {
         }
         // random sequences of 20-200 steps
         let mut rng = Rng::new(seed ^ 0xC18);
-        for _ in 0..if quick { 120 } else { 2000 } {
+        for _ in 0..if quick { 120 } else { 12000 } {
             let n = rng.usize(20, if quick { 60 } else { 200 });
             let mut s = Vec::new();
             for _ in 0..n {
